@@ -135,7 +135,11 @@ def op_strategy(draw, v, led, weights, backend="file", history=()):
             first = [Bp] + others + [rel]
             if draw(st.booleans()):
                 first = [Bp, rel] + others
-            return ("batch", [(T(A), [T(x) for x in first]), (T(Bp), [T(x) for x in olds])], draw(st.sampled_from([1, 1, 2, 50])))
+            tA, tB = T(A), T(Bp)
+            if tA == tB:
+                # a dict cannot hold the same key twice
+                return ("batch", [(tB, [T(x) for x in first + olds])], draw(st.sampled_from([1, 1, 2, 50])))
+            return ("batch", [(tA, [T(x) for x in first]), (tB, [T(x) for x in olds])], draw(st.sampled_from([1, 1, 2, 50])))
         if kind == "links":
             n = draw(st.integers(0, 6))
             pairs = []
